@@ -98,3 +98,35 @@ fn replay_propset_layouts() {
         println!("OUT witness={}", w);
     }
 }
+
+/// Native replay for C09's PropertyValue::read totality law: the real reader on a family of short byte
+/// strings (every type tag the reader knows plus unknown ones, string lengths 0, 1, exact, short of data, huge):
+/// it must return a value or an error, never panic.
+#[test]
+fn replay_propvalue_read_total() {
+    let mut inputs: Vec<Vec<u8>> = Vec::new();
+    for tag in [0u32, 1, 2, 3, 16, 30, 64, 5, 0xffff_ffff] {
+        for tail in [&[][..], &[0][..], &[0, 0, 0, 0][..], &[1, 0, 0, 0, 0][..], &[2, 0, 0, 0, b'a', 0][..], &[2, 0, 0, 0, b'a', b'b'][..],
+                     &[0xff, 0xff, 0xff, 0xff, 0][..], &[0, 0, 0, 0, 0, 0, 0, 0][..], &[5, 0, 0, 0, b'a'][..]] {
+            let mut b = tag.to_le_bytes().to_vec();
+            b.extend_from_slice(tail);
+            inputs.push(b);
+        }
+    }
+    let mut witness: Option<String> = None;
+    let hook = std::panic::take_hook();
+    std::panic::set_hook(Box::new(|_| {}));
+    for b in inputs.iter() {
+        let r = std::panic::catch_unwind(|| PropertyValue::verif_read(Cursor::new(b.clone()), CodePage::Windows1252).is_ok());
+        if r.is_err() {
+            witness = Some(format!("PropertyValue::read panics on the bytes {:02x?}", b));
+            break;
+        }
+    }
+    std::panic::set_hook(hook);
+    println!("OUT checked={}", inputs.len());
+    println!("OUT differs={}", if witness.is_some() { 1 } else { 0 });
+    if let Some(w) = witness {
+        println!("OUT witness={}", w);
+    }
+}
